@@ -713,6 +713,82 @@ def decodeAllU (c : Codec) (file : Bytes) : Option (List Rec) :=
   | _ => none
 
 
+/-! ### Phase 5: `_max_chunker` as a small program, the write loop of `DiskSink`, a windowed torn-tail repair
+
+`ChunkTasks._max_chunker` is extracted from the source by the translator (ast) as a program over four statements:
+```
+chunk = iter(chunk)                                  iterInit
+batch = list(islice(chunk,max_tasks))                takeBatch
+while batch != []:                                   whileNonEmpty [
+    yield batch                                        yieldBatch,
+    batch = list(islice(chunk,max_tasks))              takeBatch ]
+```
+`max_tasks = 0` stands for `None` (`max_tasks or None`): `islice(it, None)` takes everything. -/
+
+inductive CSimple where
+  | iterInit | takeBatch | yieldBatch
+  deriving DecidableEq, Repr
+
+inductive CStmt where
+  | simple (s : CSimple)
+  | whileNonEmpty (body : List CSimple)
+  deriving DecidableEq, Repr
+
+structure CState where
+  it : List Task
+  batch : List Task
+  out : List (List Task)
+
+def stepSimple (m : Nat) : CSimple → CState → CState
+  | .iterInit, s => s
+  | .takeBatch, s => if m = 0 then { s with batch := s.it, it := [] } else { s with batch := s.it.take m, it := s.it.drop m }
+  | .yieldBatch, s => { s with out := s.out ++ [s.batch] }
+
+def execBody (m : Nat) (body : List CSimple) (s : CState) : CState := body.foldl (fun s st => stepSimple m st s) s
+
+def execWhile (m : Nat) (body : List CSimple) : Nat → CState → CState
+  | 0, s => s
+  | f + 1, s => if s.batch.isEmpty then s else execWhile m body f (execBody m body s)
+
+def execProg (m fuel : Nat) : List CStmt → CState → CState
+  | [], s => s
+  | .simple st :: r, s => execProg m fuel r (stepSimple m st s)
+  | .whileNonEmpty b :: r, s => execProg m fuel r (execWhile m b fuel s)
+
+/-- the batches a chunker program yields for `max_tasks = m` on the task list `l` -/
+def runChunker (prog : List CStmt) (m : Nat) (l : List Task) : List (List Task) :=
+  (execProg m l.length prog ⟨l, [], []⟩).out
+
+/-- `_max_chunker` as the model reads it -/
+def maxChunkerProg : List CStmt :=
+  [.simple .iterInit, .simple .takeBatch, .whileNonEmpty [.yieldBatch, .takeBatch]]
+
+/-- `DiskSink.write(lines)` with `batch = b`: the groups of lines written inside one `with self:` each, i.e. (for a sink
+that is not entered from outside) per open/close of the file = per gzip member.
+`while self._unfinished(batch): batch = self._get_batch(lines); with self: for line in batch: write(line+'\n'); flush()`;
+`_unfinished`: not started, or the last batch was a list of exactly `b` lines — so after a full last batch the loop goes round
+once more with an EMPTY batch (for `.gz`: an empty member).  `b = 0` is `batch=None`: one lazy batch with everything. -/
+def sinkWrite (b : Nat) (lines : List Bytes) : List (List Bytes) :=
+  if b = 0 then [lines] else go b (lines.length + 1) lines
+where
+  go (b : Nat) : Nat → List Bytes → List (List Bytes)
+    | 0, _ => []
+    | f + 1, l => if (l.take b).length = b then l.take b :: go b f (l.drop b) else [l.take b]
+
+/-- the plain branch of `_drop_torn_tail` if it looked only at the last `W` bytes of the file (the committed code reads the
+whole file: `W = file.length`); what lies before the window is left as it is -/
+def repairWin (c : Codec) (W : Nat) (file : Bytes) : Bytes :=
+  file.take (file.length - W) ++ repair c (file.drop (file.length - W))
+
+
+/-- spec (phase 5, multi-process runs): `out` is an interleaving of the sequences `ls` — every sequence keeps its own order,
+nothing else is known about the schedule.  For CobaMultiprocessor: one sequence per chunk (a chunk is processed by ONE worker,
+sequentially, and a `multiprocessing.Queue` keeps the order of the items one process puts). -/
+inductive Merge {α : Type} : List (List α) → List α → Prop
+  | done (ls : List (List α)) : (∀ l ∈ ls, l = []) → Merge ls []
+  | step (pre post : List (List α)) (x : α) (l out : List α) :
+      Merge (pre ++ l :: post) out → Merge (pre ++ (x :: l) :: post) (x :: out)
+
 /-! ### the concrete codec of the driver: a table of (record, text) pairs -/
 
 def tableEnc (tbl : List (Rec × Bytes)) (r : Rec) : Bytes :=
